@@ -66,30 +66,31 @@ example : renderGroups [⟨true, .M, false, [.num "10".toList, .num "-.5".toList
     = "M10-.5.5.0a1e2 1 0 011 1e3".toList := by decide
 
 /-- **the output of the model of `ShortenPathData` is valid path data, for every input**: whenever the
-    scanner finds a command (`scan d = some is`; otherwise the input is returned unchanged) the output
+    scanner finds a command and no bad format (`scan d = some r`, `r.tail = []`; without a command the input is
+    returned unchanged, after a bad format the rest is appended verbatim) the output
     lexes and parses, and the parsed commands are exactly the groups `copyInstruction` chose
     (rewritten command, absolute or relative alternative) — no token is merged, split or re-attributed to
     another command by letter omission, separator elision, compact flags, `.0` or `e2`.
     Hypothesis: the numbers that were printed have the `minify.Number` output shape (C08.5; the harness
     checks `goodNum` on every output of the real function).  No validity assumption on `d`. -/
-theorem shorten_output_parses (P : NumPr) (d : List Char) (is : List Instr)
-    (hscan : scan d = some is) (hlen : d.length ≤ maxLen)
-    (hgood : ∀ g ∈ groupsOfInstrs P is, ∀ s, PItem.num s ∈ g.items → goodNum s = true) :
-    parse (shortenWith P d) = some (groupsCmds {} (groupsOfInstrs P is)) := by
+theorem shorten_output_parses (P : NumPr) (d : List Char) (r : ScanRes)
+    (hscan : scan d = some r) (htail : r.tail = []) (hlen : d.length ≤ maxLen)
+    (hgood : ∀ g ∈ groupsOfInstrs P r.instrs r.lastNext, ∀ s, PItem.num s ∈ g.items → goodNum s = true) :
+    parse (shortenWith P d) = some (groupsCmds {} (groupsOfInstrs P r.instrs r.lastNext)) := by
   have hl : ¬ maxLen < d.length := by omega
-  simp only [shortenWith, hl, if_false, hscan]
+  simp only [shortenWith, hl, if_false, hscan, htail, List.append_nil]
   apply path_parse_roundtrip
   intro g hg
-  have h := groupsOfInstrs_wf P is g hg
+  have h := groupsOfInstrs_wf P r.instrs r.lastNext g hg
   exact ⟨h.len, hgood g hg, h.ok, h.force⟩
 
 /-- the same for any number printers that always produce the `minify.Number` shape -/
 theorem shorten_output_parses_of_contract (P : NumPr) (hc : ∀ s, goodNum (P.cur s) = true) (ha : ∀ v, goodNum (P.alt v) = true)
-    (d : List Char) (is : List Instr) (hscan : scan d = some is) (hlen : d.length ≤ maxLen) :
-    parse (shortenWith P d) = some (groupsCmds {} (groupsOfInstrs P is)) := by
-  apply shorten_output_parses P d is hscan hlen
+    (d : List Char) (r : ScanRes) (hscan : scan d = some r) (htail : r.tail = []) (hlen : d.length ≤ maxLen) :
+    parse (shortenWith P d) = some (groupsCmds {} (groupsOfInstrs P r.instrs r.lastNext)) := by
+  apply shorten_output_parses P d r hscan htail hlen
   intro g hg s hs
-  exact printed_good P hc ha is g hg s hs
+  exact printed_good P hc ha r.instrs r.lastNext g hg s hs
 
 example : scan "M10 10L20 10 20 10C1 2 3 4 5 6".toList ≠ none := by decide
 
@@ -202,41 +203,29 @@ example : validPath "M0 0L5 0 5 0H6C6 5 10 5 10 0S15-5 15 0Q20 5 25 0T35 0A5 5 0
     holds "M0 0L5 0 5 0H6C6 5 10 5 10 0S15-5 15 0Q20 5 25 0T35 0A5 5 0 0140 0z".toList
       (shorten "M0 0L5 0 5 0H6C6 5 10 5 10 0S15-5 15 0Q20 5 25 0T35 0A5 5 0 0140 0z".toList) = true := by decide +kernel
 
-/-- the full statement is false for the code as it is: `M0 0Q0 0 5 5T10 0` ↦ `M0 0 5 5l5-5`
-    (known finding K-C05-4; the T, a real curve with control point (10,10), becomes a line) -/
+/-- the full statement for the concrete Go printers is false **because of precision only**: the alternative
+    coordinate is printed with 15 significant digits (`newPrecision`), so an exact sum with more digits is rounded:
+    `M.12 0H1000000000000000.1` ↦ `M.12 0h1e15` (off by 0.02 at 1e15; within the float tolerance 1e-9 of the
+    property, and `float64` cannot represent the input either).  This is the "partial w.r.t. floating point" part. -/
 theorem path_geometry_counterexample : ¬ path_geometry_full := fun h =>
-  absurd (h "M0 0Q0 0 5 5T10 0".toList (by decide +kernel)) (by decide +kernel)
+  absurd (h "M.12 0H1000000000000000.1".toList (by decide +kernel)) (by decide +kernel)
 
-/-- K-C05-2: closepath does not reset the remembered control point -/
-theorem known_closed_witness :
-    validPath "M0 0C1 1 2 2 3 3zC-2 -2 5 5 6 6".toList = true ∧
-    shorten "M0 0C1 1 2 2 3 3zC-2 -2 5 5 6 6".toList = "M0 0C1 1 2 2 3 3zS5 5 6 6".toList ∧
-    holds "M0 0C1 1 2 2 3 3zC-2 -2 5 5 6 6".toList (shorten "M0 0C1 1 2 2 3 3zC-2 -2 5 5 6 6".toList) = false ∧
-    hazards ((parse "M0 0C1 1 2 2 3 3zC-2 -2 5 5 6 6".toList).getD []) = ["closed"] := by decide +kernel
-
-/-- K-C05-3: a removed zero-length segment changes what a following smooth curve reflects -/
-theorem known_dropped_witness :
-    validPath "M0 0C0 5 5 5 5 0L5 0S10 -5 10 0".toList = true ∧
-    shorten "M0 0C0 5 5 5 5 0L5 0S10 -5 10 0".toList = "M0 0C0 5 5 5 5 0s5-5 5 0".toList ∧
-    holds "M0 0C0 5 5 5 5 0L5 0S10 -5 10 0".toList (shorten "M0 0C0 5 5 5 5 0L5 0S10 -5 10 0".toList) = false ∧
-    hazards ((parse "M0 0C0 5 5 5 5 0L5 0S10 -5 10 0".toList).getD []) = ["dropped"] := by decide +kernel
-
-/-- K-C05-4: a degenerate curve replaced by a line forgets its control point -/
-theorem known_degenerate_witness :
-    validPath "M0 0C0 0 0 0 5 5S10 0 10 5".toList = true ∧
-    shorten "M0 0C0 0 0 0 5 5S10 0 10 5".toList = "M0 0 5 5s5-5 5 0".toList ∧
-    holds "M0 0C0 0 0 0 5 5S10 0 10 5".toList (shorten "M0 0C0 0 0 0 5 5S10 0 10 5".toList) = false ∧
-    hazards ((parse "M0 0C0 0 0 0 5 5S10 0 10 5".toList).getD []) = ["degenerate"] := by decide +kernel
-
-/-- K-C05-5: trailing dot followed by an exponent -/
-theorem known_traildot_witness :
-    validPath "M1.e5 2".toList = true ∧ shorten "M1.e5 2".toList = [] ∧
-    holds "M1.e5 2".toList (shorten "M1.e5 2".toList) = false ∧ trailDot "M1.e5 2".toList = true := by decide +kernel
-
-/-- the two repaired defects stay repaired in the model (F02, F03) and satisfy the property -/
+/-- the repaired defects stay repaired in the model and satisfy the property (F02, F03 and the former
+    known findings K-C05-2, 3, 4, 5, 10) -/
 theorem fixed_regressions :
     shorten "M2 2Z L3 3".toList = "M2 2zL3 3".toList ∧ holds "M2 2Z L3 3".toList (shorten "M2 2Z L3 3".toList) = true ∧
     shorten "M1e100 5e-100L1 2".toList = "M1e100 5e-100 1 2".toList ∧
-    holds "M1e100 5e-100L1 2".toList (shorten "M1e100 5e-100L1 2".toList) = true := by decide +kernel
+    holds "M1e100 5e-100L1 2".toList (shorten "M1e100 5e-100L1 2".toList) = true ∧
+    shorten "M0 0C1 1 2 2 3 3zC-2 -2 5 5 6 6".toList = "M0 0C1 1 2 2 3 3zC-2-2 5 5 6 6".toList ∧
+    holds "M0 0C1 1 2 2 3 3zC-2 -2 5 5 6 6".toList (shorten "M0 0C1 1 2 2 3 3zC-2 -2 5 5 6 6".toList) = true ∧
+    shorten "M0 0C0 5 5 5 5 0L5 0S10 -5 10 0".toList = "M0 0C0 5 5 5 5 0V0s5-5 5 0".toList ∧
+    holds "M0 0C0 5 5 5 5 0L5 0S10 -5 10 0".toList (shorten "M0 0C0 5 5 5 5 0L5 0S10 -5 10 0".toList) = true ∧
+    shorten "M0 0Q0 0 5 5T10 0".toList = "M0 0T5 5t5-5".toList ∧
+    holds "M0 0Q0 0 5 5T10 0".toList (shorten "M0 0Q0 0 5 5T10 0".toList) = true ∧
+    shorten "M0 0C0 0 0 0 5 5S10 0 10 5".toList = "M0 0S0 0 5 5s5-5 5 0".toList ∧
+    holds "M0 0C0 0 0 0 5 5S10 0 10 5".toList (shorten "M0 0C0 0 0 0 5 5S10 0 10 5".toList) = true ∧
+    shorten "M1.e5 2".toList = "M1.e5 2".toList ∧
+    shorten "M0 0A5 3 50. 1 1 4 4V9".toList = "M0 0A5 3 50. 1 1 4 4V9".toList ∧
+    shorten "M 10 10 L 20 20 A 1 1 0 2".toList = "M10 10 20 20A 1 1 0 2".toList := by decide +kernel
 
 end Verif.Props.C05
